@@ -8,7 +8,7 @@
 """
 from facts import Undecided, loc, tstr, callee_name, callee_written, subterms, operand_place
 from guards import try_sites, ok_blocks, must_pass_through, strip_casts, facts_at, edge_facts
-from pat import m, Bind, ANY, Call, Bin, Const, Param, SelfField, core, self_path
+from pat import m, Bind, ANY, Call, Bin, Const, Param, SelfField, Or, core, self_path
 import serfmt
 import rltables
 
@@ -317,19 +317,22 @@ def check_basic(ctx, F, by_name, tag):
         ctx.ob("C06.R2.basic.bytes-header", short + tag, where, okh, "formula", "header = [len(self) as usize]: %s" % serfmt.describe(H))
         bb = f["serialize_body"]
         wa = serfmt.effective_calls(F, bb, lambda x: x == "std::io::Write::write_all")
+        LEN = Or(Call(lenf, Param(0)), Call(lambda x: x.endswith("::len") and "slice" in x, Call(bytesf, Param(0))))
         okb = len(wa) == 2
         detail = "%d write_all calls (directly or through one helper)" % len(wa)
         if okb:
             first = m(Call(bytesf, Param(0)), wa[0]["args"][1]) and wa[0]["mod"] == "once" and core(wa[0]["args"][0])[:2] == ("param", 1)
             env = {}
-            pad = wa[1]["args"][1]
+            from guards import resolve_nonzero_vars
+            pad_block = [bi for bi, t in bb.calls() if t["sp"] == wa[1]["sp"] and callee_written(t) == "std::io::Write::write_all"]
+            pad, pad_facts = resolve_nonzero_vars(bb, pad_block[0], wa[1]["args"][1]) if pad_block else (wa[1]["args"][1], [])
             second = m(Call(lambda x: "Index" in x and x.endswith("::index"), ("repeat", Const(0), ANY),
-                            ("adt", "std::ops::Range", "Range", ANY, (Const(0), Bin("Sub", Call("bits::round_up_to_word_bytes", Call(lenf, Param(0))), Call(lenf, Param(0)))))), pad, env) \
+                            ("adt", "std::ops::Range", "Range", ANY, (Const(0), Bin("Sub", Call("bits::round_up_to_word_bytes", LEN), LEN)))), pad, env) \
                 and core(wa[1]["args"][0])[:2] == ("param", 1)
             # padding only when padded_len > len
-            fs = wa[1]["facts"]
-            guard = any(fc[0] == "cmp" and ((fc[1] == "Gt" and m(Call("bits::round_up_to_word_bytes", Call(lenf, Param(0))), fc[2]) and m(Call(lenf, Param(0)), fc[3])) or
-                                            (fc[1] == "Lt" and m(Call("bits::round_up_to_word_bytes", Call(lenf, Param(0))), fc[3]) and m(Call(lenf, Param(0)), fc[2]))) for fc in fs)
+            fs = list(wa[1]["facts"]) + pad_facts
+            guard = any(fc[0] == "cmp" and ((fc[1] == "Gt" and m(Call("bits::round_up_to_word_bytes", LEN), fc[2]) and m(LEN, fc[3])) or
+                                            (fc[1] == "Lt" and m(Call("bits::round_up_to_word_bytes", LEN), fc[3]) and m(LEN, fc[2]))) for fc in fs)
             okb = first and second and guard
             detail = "body = bytes then zero padding of round_up_to_word_bytes(len) - len bytes when > 0%s: first=%s padding=%s guard=%s" % (
                 (" (padding written by helper %s)" % wa[1]["via"]) if wa[1]["via"] else "", first, second, guard)
@@ -351,9 +354,11 @@ def check_basic(ctx, F, by_name, tag):
             env = {}
             first = m(Call(lambda x: x.endswith("::as_mut_slice"), Call("std::vec::from_elem", Const(0), Bind("size"))), lb.term_of_operand(re[0][1]["args"][1]), env) and core(env["size"]) == core(size)
             vlen = Call(is_vec_len, Call("std::vec::from_elem", Const(0), Bind("size")))
+            from guards import resolve_nonzero_vars
+            skip, skip_facts = resolve_nonzero_vars(lb, re[1][0], lb.term_of_operand(re[1][1]["args"][1]))
             second = m(Call(lambda x: "IndexMut" in x and x.endswith("::index_mut"), ("repeat", Const(0), ANY),
-                            ("adt", "std::ops::Range", "Range", ANY, (Const(0), Bin("Sub", Call("bits::round_up_to_word_bytes", vlen), vlen)))), lb.term_of_operand(re[1][1]["args"][1]), env)
-            fs = facts_at(lb, re[1][0])
+                            ("adt", "std::ops::Range", "Range", ANY, (Const(0), Bin("Sub", Call("bits::round_up_to_word_bytes", vlen), vlen)))), skip, env)
+            fs = facts_at(lb, re[1][0]) + skip_facts
             guard = any(fc[0] == "cmp" and fc[1] == "Gt" and m(Call("bits::round_up_to_word_bytes", vlen), fc[2], dict(env)) and m(vlen, fc[3], dict(env)) for fc in fs)
             oks = [st for bi, si, st in lb.stmts() if st["s"] == "assign" and st["lhs"]["l"] == 0 and st["rv"]["r"] == "agg" and st["rv"].get("vname") == "Ok"]
             ret = len(oks) == 1 and m(Call("std::vec::from_elem", Const(0), Bind("size")), lb.term_of_operand(oks[0]["rv"]["ops"][0]), env)
@@ -365,9 +370,17 @@ def check_basic(ctx, F, by_name, tag):
     L = serfmt.load_seq(lb)
     okl = len(L) == 1 and L[0]["ty"] == "std::vec::Vec<u8>" and L[0]["mod"] == "once"
     if okl:
-        r0 = [t for bi, t in lb.calls() if not t["dest"]["p"] and t["dest"]["l"] == 0 and callee_written(t) != "std::ops::FromResidual::from_residual"]
-        okl = len(r0) == 1 and m(Call(lambda x: x.endswith("::map_err"), Call("std::string::String::from_utf8", Bind("bytes")), ANY), lb.term_of_call(r0[0])) and \
-            L[0]["payload"] is not None
+        # the loaded bytes go through from_utf8; the value returned on success is its Ok payload (written as `.map_err(..)` on the
+        # result, or as the match that stands for)
+        fu = [t for bi, t in lb.calls() if callee_name(t) == "std::string::String::from_utf8"]
+        okl = len(fu) == 1 and L[0]["payload"] is not None and root_local(lb, fu[0]["args"][0]) == L[0]["payload"]
+        if okl:
+            fterm = lb.term_of_call(fu[0])
+            r0 = [t for bi, t in lb.calls() if not t["dest"]["p"] and t["dest"]["l"] == 0 and callee_written(t) != "std::ops::FromResidual::from_residual"]
+            call_form = len(r0) == 1 and m(Call(lambda x: x.endswith("::map_err"), Call("std::string::String::from_utf8", ANY), ANY), lb.term_of_call(r0[0]))
+            oks = [st for bi, si, st in lb.stmts() if st["s"] == "assign" and not st["lhs"]["p"] and st["lhs"]["l"] == 0 and st["rv"]["r"] == "agg" and st["rv"].get("vname") == "Ok"]
+            match_form = not r0 and len(oks) == 1 and core(lb.term_of_operand(oks[0]["rv"]["ops"][0])) == ("field", ("downcast", fterm, "Ok"), "0")
+            okl = call_form or match_form
     ctx.ob("C06.R2.basic.string-load", "String" + tag, where, okl, "formula", "String::load = from_utf8(Vec<u8>::load(reader)?) with the error mapped")
 
     # ---------------- Option<V>
@@ -424,7 +437,19 @@ def check_basic(ctx, F, by_name, tag):
     oks = len(S) == 1 and S[0]["mod"] == "cond" and S[0]["ty"] == "V"
     consts = [int(st["rv"]["o"]["k"]["v"]) for bi, si, st in sb.stmts() if st["s"] == "assign" and st["rv"]["r"] == "use" and "k" in st["rv"]["o"] and st["rv"]["o"]["k"].get("v") is not None and st["rv"]["o"]["k"]["ty"] == "usize"]
     ops = serfmt.arithmetic_ops(sb)
-    oks = oks and consts == [1] and [op for op, _, _, _ in ops] == ["Add"]
+    form1 = consts == [1] and [op for op, _, _, _ in ops] == ["Add"]           # let mut n = 1; if let Some(v) = self { n += v.size() }
+    form2 = False                                                               # 1 + (size of the value in the Some arm | 0)
+    rt = core(sb.term_of_local(0))
+    if rt[0] == "bin" and rt[1] == "Add" and [op for op, _, _, _ in ops] == ["Add"]:
+        for one, rest in ((rt[2], rt[3]), (rt[3], rt[2])):
+            rest = core(rest)
+            if m(Const(1), one) and rest[0] == "var":
+                vals = [(d[0], sb.term_of_rvalue(d[3]) if d[2] == "assign" else sb.term_of_call(d[3])) for d in sb.defs().get(rest[1], []) if d[2] in ("assign", "call")]
+                zero = [v for v in vals if m(Const(0), v[1])]
+                some = [v for v in vals if m(Call("serialize::Serialize::size_in_elements", ANY), v[1])]
+                form2 = len(vals) == 2 and len(zero) == 1 and len(some) == 1 and \
+                    any(fc[0] == "discr" and fc[2] == 1 for fc in facts_at(sb, some[0][0]))
+    oks = oks and (form1 or form2)
     ctx.ob("C06.R2.basic.option-size", "Option<V>" + tag, where, oks, "formula", "size = 1 (+ value.size_in_elements() in the Some arm): items %s consts %s ops %s" % (serfmt.describe(S), consts, [op for op, _, _, _ in ops]))
     b = F.body("serialize::absent_option_size")
     ctx.ob("C06.R2.basic.absent-option-size", "serialize::absent_option_size" + tag, loc(b.raw["span"]), m(Const(1), b.term_of_local(0)), "constant", "absent_option_size() = %s" % tstr(b.term_of_local(0)))
